@@ -6,6 +6,9 @@ import DracoProofs.SeqRows
 import DracoProofs.SpecCheck
 import DracoProofs.OctaFloat
 import DracoProofs.SeqScheme
+import DracoProofs.GeneratedSeq
+import DracoProofs.GeneratedTable
+import DracoProofs.GeneratedPred
 /-
   C01 — encode/decode round trip, composed and machine checked for the SEQUENTIAL methods
   (`POINT_CLOUD_SEQUENTIAL_ENCODING`, `MESH_SEQUENTIAL_ENCODING`), against the decoder model
@@ -819,5 +822,47 @@ open Opt in
 /-- non-vacuity: global quantization bits reach an attribute that has only a prediction scheme of its own -/
 example : ((({} : DracoOptions).setGlobalInt "quantization_bits" 11).setAttributeInt 2 "prediction_scheme" 0).getAttributeInt
     2 "quantization_bits" (-1) = 11 := by decide +kernel
+
+/-! ## the index width classes of the sequential connectivity coder are the source's -/
+open Generated in
+/-- `MeshSequentialDecoder::DecodeConnectivity`: the decision skeleton of its chain `if (num_points < 256) … else if
+    (num_points < (1 << 16)) … else if (num_points < (1 << 21) && bitstream_version() >= 2.2) … else …` (conditions
+    translated mechanically from clang's AST of /repo on every run, branch bodies replaced by their ordinal) selects the width
+    class of the model's `decodeSeqConnectivity` (`Generated.seqIndexWidth`, `Generated.model_chain_is_seqIndexWidth`) -/
+theorem source_seqDecIndexWidth_is_model (ver numPoints : Nat) (hv : ver < 2^16) (hn : numPoints < 2^32) :
+    MeshSequentialDecoder.DecodeConnectivity_indexWidth ver numPoints =
+      (seqIndexWidth numPoints (decide (ver < bsVersion 2 2)) : Int) :=
+  DecodeConnectivity_indexWidth_eq_model ver numPoints hv hn
+example : Generated.MeshSequentialDecoder.DecodeConnectivity_indexWidth (514 : Nat) (256 : Nat) = 1 := by
+  rw [source_seqDecIndexWidth_is_model _ _ (by decide) (by decide)]; decide
+
+open Generated in
+/-- `MeshSequentialEncoder::EncodeConnectivity`: the same for `mesh()->num_points() < 256`, `< (1 << 16)`, `< (1 << 21)` -/
+theorem source_seqEncIndexWidth_is_model (numPoints : Nat) (hn : numPoints < 2^31) :
+    MeshSequentialEncoder.EncodeConnectivity_indexWidth numPoints = (seqIndexWidth numPoints false : Int) :=
+  EncodeConnectivity_indexWidth_eq_model numPoints hn
+example : Generated.MeshSequentialEncoder.EncodeConnectivity_indexWidth (65536 : Nat) = 2 := by
+  rw [source_seqEncIndexWidth_is_model _ (by decide)]; decide
+
+open Generated in
+/-- the size-class branch of `RAnsSymbolEncoder::EncodeTable` (every attribute's symbol table goes through it) -/
+theorem source_tableSizeClass_is_model (p : Int) (hp : U32 p) :
+    RAnsSymbolEncoder.EncodeTable_sizeClass p = sizeClass p := EncodeTable_sizeClass_eq_model p hp
+example : Generated.RAnsSymbolEncoder.EncodeTable_sizeClass 16384 = (none, 2) := by
+  rw [source_tableSizeClass_is_model _ (by decide)]; decide
+
+open Generated in
+/-- the loop body of `ComputeParallelogramPrediction<CornerTable, int32_t>` (five statements, cut out of the translated
+    function by AST position): component `c` of the prediction is `next + prev − opp` formed in `int64_t` and converted to
+    `int32_t` (`wrap32`) — what the model's `parallelogramPrediction` pushes — for all `int32_t` data and in-range indices -/
+theorem source_parallelogramComponent_is_model (inData : Int → Int) (vn vp vo c : Int)
+    (hd : ∀ i, I32 (inData i)) (h1 : I32 (vn + c)) (h2 : I32 (vp + c)) (h3 : I32 (vo + c)) :
+    (ComputeParallelogramPrediction_component inData vn c vp vo).2.2.2.2 =
+      [(c, wrap32 (inData (vn + c) + inData (vp + c) - inData (vo + c)))] ∧
+    (ComputeParallelogramPrediction_component inData vn c vp vo).2.2.2.1 =
+      inData (vn + c) + inData (vp + c) - inData (vo + c) :=
+  ComputeParallelogramPrediction_component_eq_model inData vn vp vo c hd h1 h2 h3
+example : (Generated.ComputeParallelogramPrediction_component (fun i => 2^31 - 1 - i) 0 1 3 6).2.2.2.2 = [(1, -2147483647)] := by
+  decide
 
 end Draco.C01
